@@ -78,6 +78,19 @@ impl Ledger {
     }
 }
 
+/// The waker the transport's stream is polled with.
+struct WakeFlag {
+    flag: std::sync::atomic::AtomicBool,
+    notify: tokio::sync::Notify,
+}
+
+impl std::task::Wake for WakeFlag {
+    fn wake(self: Arc<Self>) {
+        self.flag.store(true, Ordering::SeqCst);
+        self.notify.notify_one();
+    }
+}
+
 struct Exec<'a> {
     h: TransportHarness,
     tr: String,
@@ -100,6 +113,9 @@ struct Exec<'a> {
     seen: HashMap<usize, Vec<String>>,
     matched: HashMap<usize, usize>,
     inbound_matched: usize,
+    /// a command was issued (or an event returned) since the stream last returned `Pending`
+    dirty: bool,
+    wake: Arc<WakeFlag>,
 }
 
 impl<'a> Exec<'a> {
@@ -238,6 +254,7 @@ impl<'a> Exec<'a> {
             other => panic!("op {other}"),
         };
         self.bump("calls");
+        self.dirty = true;
         let mut v = json!({"e": "call", "c": op, "cid": cid, "ret": ret});
         if !err.is_empty() {
             v["err"] = json!(err.chars().take(60).collect::<String>());
@@ -260,6 +277,7 @@ impl<'a> Exec<'a> {
         let r = if op == "open" { self.h.open(cid, addrs.clone()) } else { self.h.dial(cid, addrs[0].clone()) };
         self.ledger.st.insert(cid, if r.is_err() { "refused" } else if op == "open" { "opening" } else { "dialing" });
         self.bump("calls");
+        self.dirty = true;
         self.log(json!({"e": "call", "c": op, "cid": cid, "ret": Self::ret(&r),
             "addrs": addrs.iter().map(|a| a.to_string()).collect::<Vec<_>>(), "socks": socks, "wants": wants,
             "kinds": specs.iter().map(|s| s["kind"].clone()).collect::<Vec<_>>()}));
@@ -388,27 +406,46 @@ impl<'a> Exec<'a> {
         options.iter().copied().find(|o| *o == p).unwrap_or("none")
     }
 
-    /// Poll the transport for up to `d`; stop early when `until` says so.
+    /// Run the polling task for up to `d`; stop early when `until` says so.
+    ///
+    /// The transport's stream is polled the way the manager's task polls it: after a command, or
+    /// when the waker the stream was last polled with has fired -- then repeatedly until it
+    /// returns `Pending` (the manager goes back to its transports after every event). It is
+    /// NEVER re-polled just because time passed: a lost wake-up (an outcome that is ready but
+    /// never announced) must stay lost so that the quiescence rule can judge it.
     async fn pump(&mut self, d: Duration, until: impl Fn(&Self, usize) -> bool) -> bool {
         let end = Instant::now() + d;
         loop {
-            let now = Instant::now();
-            let left = if end > now { end - now } else { Duration::from_millis(0) };
-            match tokio::time::timeout(left, self.h.next_event()).await {
-                Ok(ev) => {
-                    let term = ev == TcpEvent::Terminated;
-                    if let Some(cid) = self.on_event(ev) {
-                        if until(self, cid) {
-                            return true;
+            if self.dirty || self.wake.flag.swap(false, Ordering::SeqCst) {
+                self.dirty = false;
+                self.bump("poll_rounds");
+                loop {
+                    let waker = std::task::Waker::from(self.wake.clone());
+                    let mut cx = std::task::Context::from_waker(&waker);
+                    let polled = {
+                        let fut = self.h.next_event();
+                        futures::pin_mut!(fut);
+                        futures::Future::poll(fut, &mut cx)
+                    };
+                    match polled {
+                        std::task::Poll::Pending => break,
+                        std::task::Poll::Ready(ev) => {
+                            let term = ev == TcpEvent::Terminated;
+                            let hit = self.on_event(ev).map(|cid| until(self, cid)).unwrap_or(false);
+                            if hit || term {
+                                // the stream returned an event: the polling task is still awake
+                                self.dirty = !term;
+                                return hit;
+                            }
                         }
                     }
-                    if term {
-                        return false;
-                    }
                 }
-                Err(_) => return false,
             }
-            if Instant::now() >= end {
+            let now = Instant::now();
+            if now >= end {
+                return false;
+            }
+            if tokio::time::timeout(end - now, self.wake.notify.notified()).await.is_err() {
                 return false;
             }
         }
@@ -429,7 +466,16 @@ impl<'a> Exec<'a> {
             "wait" => {
                 self.pump(Duration::from_millis(step["ms"].as_u64().unwrap_or(10)), |_, _| false).await;
             }
-            "sleep" => tokio::time::sleep(Duration::from_millis(step["ms"].as_u64().unwrap_or(10))).await,
+            // the application is busy: nobody polls the transport (completions pile up inside it)
+            "sleep" | "hold" => {
+                tokio::time::sleep(Duration::from_millis(step["ms"].as_u64().unwrap_or(10))).await;
+                if self.fault == "lose_wake_after_hold" {
+                    // emulates a stream that had something ready but did not keep its task awake: if the driver ever
+                    // re-polled just because time passes, the selftest would not see the resulting silence
+                    self.wake.flag.store(false, Ordering::SeqCst);
+                    self.dirty = false;
+                }
+            }
             "expect" => {
                 let ms = Duration::from_millis(step["ms"].as_u64().unwrap_or(1000));
                 // an event that arrived earlier (while another one was awaited) satisfies the expectation too
@@ -500,7 +546,8 @@ async fn run_exec(env: &Env, sched: &Value, seed: u64, fault: &str) -> Outcome {
     let mut x = Exec {
         h, tr, env, rng: StdRng::seed_from_u64(seed ^ id.wrapping_mul(0x9e3779b97f4a7c15)), lines: vec![], refs: HashMap::new(), inbound: vec![],
         ledger: Ledger::default(), policy: cfg["policy"].clone(), last_activity: Instant::now(), accepts: vec![], fault: fault.to_string(),
-        cancelled_opening: vec![], listen, local, held: vec![], stats: HashMap::new(), seen: HashMap::new(), matched: HashMap::new(), inbound_matched: 0,
+        cancelled_opening: vec![], listen, local, held: vec![], stats: HashMap::new(), seen: HashMap::new(), matched: HashMap::new(), inbound_matched: 0, dirty: true,
+        wake: Arc::new(WakeFlag { flag: std::sync::atomic::AtomicBool::new(false), notify: tokio::sync::Notify::new() }),
     };
     x.lines.push(json!({"e": "reset", "id": id, "src": sched["src"], "cfg": cfg, "seed": seed}).to_string());
     for step in sched["steps"].as_array().cloned().unwrap_or_default() {
